@@ -1,7 +1,7 @@
 (** C02 -- parsing untrusted bytes is total and memory-safe: property theorems only.
     Each theorem is closed by [exact]/short glue from lemmas of [Proofs_C02], and followed by
     [Print Assumptions]. *)
-From Sci Require Import Wire.Views Wire.Spec_C02 Wire.Proofs_C02 Wire.Proofs_C02b Wire.Proofs_C02c Wire.Proofs_C02d Wire.Proofs_C02e.
+From Sci Require Import Wire.Views Wire.Spec_C02 Wire.Proofs_C02 Wire.Proofs_C02b Wire.Proofs_C02c Wire.Proofs_C02d Wire.Proofs_C02e Wire.Proofs_C02f.
 Local Open Scope N_scope.
 
 (** For every view type and EVERY byte string: the size a view constructor reports as the
@@ -90,27 +90,32 @@ Proof. vm_compute. repeat split; reflexivity. Qed.
 Print Assumptions size_determining_setters_are_unsafe.
 
 (** Re-validation after ANY sequence of safe mutators gives the same size: for a view [v]
-    (bytes the constructor accepted with exactly their length) every sequence of operations in
-    [layout_preserving_op] leaves [required_size] at [Ok (length v)] -- proved at bit level
-    ([read_write_disjoint]): no covered setter touches a bit the constructor reads.
-    Covered: every safe mutator of InfoFieldView, HopFieldView, OneHopPathView, the typed SCMP
-    message views, StandardPathView (set_curr_*, info_field_mut / hop_field_mut setters),
-    ScmpPayloadView (set_code, set_checksum, every message_mut() setter incl. payload bytes),
-    UdpDatagramView except set_length, ScionHeaderView's scalar setters except set_version --
-    on the header view itself and through header_mut() of the raw, UDP and SCMP packet views
-    (where the payload's re-validation is preserved as well).
-    The two exceptions are deliberate in the code: they rewrite a field the CONSTRUCTOR reads
-    (version check, UDP length) but no accessor re-derives an extent from them (the view is a
-    fat pointer); [Findings_C02] has the witnesses.
-    PARTIAL: ScionHeaderView::path_mut() setters (also through header_mut()) and the raw view's
-    payload_mut() are covered by the extent theorem and the correspondence check only. *)
-Theorem safe_setters_preserve_layout_partial :
+    (bytes the constructor accepted with exactly their length) every sequence of mutator calls
+    leaves [required_size] at [Ok (length v)], the length unchanged and every element a byte --
+    proved at bit level ([read_write_disjoint]): no covered setter touches a bit the constructor
+    reads.  For EVERY view kind and EVERY mutator number of [Views.run_mut] (= the harness's
+    numbering; numbers that name no mutator are no-ops) except the three deliberate exceptions of
+    [is_layout_exception]:
+      InfoFieldView, HopFieldView, OneHopPathView, the typed SCMP message views, StandardPathView
+      (set_curr_*, info_field_mut(i) / hop_field_mut(i) setters), ScmpPayloadView (set_code,
+      set_checksum, every message_mut() setter incl. payload bytes), UdpDatagramView,
+      ScionHeaderView's scalar setters and every setter reached through path_mut() (standard and
+      one-hop path views applied to the path sub-view and spliced back: no bit of the common
+      header, never a segment length), all of these again through header_mut() of the raw, UDP and
+      SCMP packet views (the payload's re-validation is preserved as well), and the raw view's
+      payload_mut().
+    The exceptions -- ScionHeaderView::set_version (directly and through header_mut()) and
+    UdpDatagramView::set_length -- are deliberate in the code: they rewrite a field the CONSTRUCTOR
+    reads (version check, UDP length) but no accessor re-derives an extent from them (the view is a
+    fat pointer); [Findings_C02] has the witnesses, [safe_mutators_preserve_extent_partial] covers
+    them for the extent. *)
+Theorem safe_setters_preserve_layout :
   forall (k : vkind) (ms : list (N * N * N)) (v v' : bytes),
-    forallb (fun m => layout_preserving_op_all k (fst (fst m))) ms = true ->
+    forallb (fun m => negb (is_layout_exception k (fst (fst m)))) ms = true ->
     bytes_ok v = true -> required_size k v = Ok (blen v) -> run_muts k ms v = Ok v' ->
     required_size k v' = Ok (blen v') /\ blen v' = blen v /\ bytes_ok v' = true.
-Proof. exact run_muts_preserve_all. Qed.
-Print Assumptions safe_setters_preserve_layout_partial.
+Proof. exact run_muts_preserve_any. Qed.
+Print Assumptions safe_setters_preserve_layout.
 
 (** Variable-offset accessors stay inside the view, for every accepted byte string:
     StandardPathView's checked_info_field_range / checked_hop_field_range (info_field(i),
